@@ -545,7 +545,12 @@ impl Prop for StackMaps {
             let base = &all[c.below(all.len())];
             (base.label.clone(), base.source.clone())
         };
-        let config = c.pick_str(&["baseline-x64", "optimizing-x64", "optimizing-arm64"]).to_string();
+        let config = if self.tools.has_boots() {
+            c.pick_str(&["baseline-x64", "optimizing-x64", "optimizing-arm64"]).to_string()
+        } else {
+            // a tree on which the optimizing compiler cannot be bootstrapped: the baseline generator is still judged
+            "baseline-x64".to_string()
+        };
         let gc = if c.chance(1, 3) { Some(c.pick_str(&["copy", "sweep", "zero"]).to_string()) } else { None };
         AsmCase { label, source, config, gc }
     }
@@ -608,19 +613,22 @@ pub fn main(mode: Mode) -> i32 {
         }
         Mode::Run(tier) => {
             let mut ctx = Ctx::new("C10", &tier);
-            if !p.tools.has_boots() {
-                println!("INCONCLUSIVE property=C10 the optimizing compiler could not be bootstrapped from this tree");
-                return 2;
-            }
-            ctx.rule = "cases: (program, back-end configuration) pairs — programs of the runnable corpus and of the typed generator, each compiled with -S by the baseline generator (x64), the optimizing generator (x64) or the optimizing generator for arm64, default or explicit collector; every emitted file contains the whole reachable standard library, so each case checks hundreds of functions incl. trampolines and trait-object thunks. oracle per function of the function table: the end label closes exactly that function's code and no function is registered twice (disjoint ranges); for every call instruction found by an independent sweep (objdump linear sweep on x64, bl/blr word masks on arm64) whose target is managed code, a runtime entry, the safepoint or the allocation slow path, the return offset has a stack map; every listed slot is 8-byte aligned and lies inside the frame's maximal static extent (sum of stack-pointer decrements), runtime-entry calls may also list caller-pushed argument slots; stack maps and source-position tables are strictly ordered and inside the function; inlined ids in range. non-trivial = file with >= 1 function that has a call site and a non-empty map; distinct by (source, configuration, collector) hash".into();
+            let boots = p.tools.has_boots();
+            ctx.rule = "cases: (program, back-end configuration) pairs — programs of the runnable corpus and of the typed generator, each compiled with -S by the baseline generator (x64; it ignores --target and always emits host code) or the optimizing generator (x64 or arm64), default or explicit collector; every emitted file contains the whole reachable standard library, so each case checks hundreds of functions incl. trampolines and trait-object thunks. oracle per function of the function table: the end label closes exactly that function's code and no function is registered twice (disjoint ranges); for every call instruction found by an independent sweep (objdump linear sweep on x64, bl/blr word masks on arm64) whose target is managed code, a runtime entry, the safepoint or the allocation slow path, the return offset has a stack map; every listed slot is 8-byte aligned and lies inside the frame's maximal static extent (sum of stack-pointer decrements), runtime-entry calls may also list caller-pushed argument slots; stack maps and source-position tables are strictly ordered and inside the function; inlined ids in range. non-trivial = file with >= 1 function that has a call site and a non-empty map; distinct by (source, configuration, collector) hash".into();
             ctx.assumptions = vec!["x64 instruction boundaries come from GNU objdump's linear sweep; a function where a relocated direct call does not coincide with a decoded call is skipped and counted".into(), "the check cannot tell whether a listed slot really holds a reference (C03 attacks that dynamically)".into()];
             ctx.run_regressions(&p);
-            let n = ctx.n(90, 2000);
+            let n = ctx.n(240, 3000);
             ctx.run_search(&p, n, 2600, 0);
             ctx.require_class("asmscan/config:baseline-x64");
-            ctx.require_class("asmscan/config:optimizing-x64");
-            ctx.require_class("asmscan/config:optimizing-arm64");
             ctx.require_class("asmscan/has-indirect-calls");
+            if boots {
+                ctx.require_class("asmscan/config:optimizing-x64");
+                ctx.require_class("asmscan/config:optimizing-arm64");
+            } else if ctx.violations.is_empty() {
+                // only the baseline generator could be judged
+                ctx.inconclusive.push("the optimizing compiler could not be bootstrapped from this tree; only the baseline generator was judged".into());
+                ctx.extra.insert("hard_inconclusive".into(), json!("optimizing compiler not bootstrapped"));
+            }
             ctx.finish()
         }
     }
